@@ -52,6 +52,7 @@ type verifJobOpts struct {
 	oneResult     bool // finished refs are Failed (result not explored)
 	noRunning     bool // refs never carry a running timestamp
 	preMarked     bool // an unfinished ref may already carry DeletedStatus=Killed (set before a delete)
+	twoLive       bool // exactly two unfinished refs, one per parallel index (needs parallel: 2)
 }
 
 func (o verifJobOpts) instant(name string, k int) time.Time {
@@ -151,11 +152,16 @@ func verifDrawJobState(o verifJobOpts) *verifJob {
 	if j.started {
 		n = vz.Choice("nrefs", o.maxRefs+1)
 	}
+	if o.twoLive {
+		n = 2
+	}
 	perIndex := make([]int64, len(j.indexes))
 	for i := 0; i < n; i++ {
 		r := &verifRef{}
 		r.pidx = 0
-		if len(j.indexes) > 1 {
+		if o.twoLive {
+			r.pidx = i
+		} else if len(j.indexes) > 1 {
 			r.pidx = vz.Choice("ref.pidx", len(j.indexes))
 		}
 		r.retry = perIndex[r.pidx]
@@ -173,7 +179,7 @@ func verifDrawJobState(o verifJobOpts) *verifJob {
 			ref.RunningTimestamp = &t
 			ref.Status.State = execution.TaskRunning
 		}
-		if vz.Bool("ref.hasFinished") {
+		if !o.twoLive && vz.Bool("ref.hasFinished") {
 			r.hasFinished = true
 			if o.symFinish {
 				r.finished = vz.InstantNear("ref.finished")
